@@ -43,6 +43,7 @@ type Job struct {
 	NoNarrow   bool
 	MergeBlind bool // merged callees: treat every alternative as feasible (no solver)
 	SkipInc    bool // assertions go straight to the portfolio
+	BranchTimeoutS int
 	// ExpectViolation: used by self-tests only
 }
 
@@ -132,7 +133,10 @@ func runJob(prog *ssa.Program, pkgs map[string]*ssa.Package, job *Job) (res *Job
 		fmt.Sscanf(t, "%d", &job.TimeoutS)
 	}
 	if job.IncMs == 0 {
-		job.IncMs = 3000
+		job.IncMs = 400
+	}
+	if job.BranchTimeoutS == 0 {
+		job.BranchTimeoutS = 10
 	}
 	if len(job.Solvers) == 0 {
 		job.Solvers = []string{"z3", "cvc5-int", "cvc5"}
@@ -140,7 +144,7 @@ func runJob(prog *ssa.Program, pkgs map[string]*ssa.Package, job *Job) (res *Job
 	ex := &Exec{prog: prog, tc: NewTermCtx(), job: job, params: job.Params, grid: job.Grid}
 	kind := job.IncKind
 	if kind == "" {
-		kind = "cvc5"
+		kind = "cvc5-int"
 	}
 	if k := os.Getenv("GOSYM_INC"); k != "" {
 		kind = k
@@ -174,7 +178,7 @@ func runJob(prog *ssa.Program, pkgs map[string]*ssa.Package, job *Job) (res *Job
 			ex.incon = append(ex.incon, fmt.Sprintf("path budget %d exhausted", job.MaxPaths))
 			break
 		}
-		if ex.inc.dead {
+		if ex.inc.dead && !ex.restartIncFresh() {
 			ex.incon = append(ex.incon, "incremental solver died")
 			break
 		}
@@ -199,6 +203,16 @@ func runJob(prog *ssa.Program, pkgs map[string]*ssa.Package, job *Job) (res *Job
 	res.Models = sortedKeys(ex.modelsUsed)
 	res.Stubs = sortedKeys(ex.stubsUsed)
 	return
+}
+
+// restartIncFresh: between paths the stack is rebuilt by backtrack(); start a new process
+// and replay the retained prefix.
+func (ex *Exec) restartIncFresh() bool {
+	saved := ex.pcPos
+	ex.pcPos = len(ex.pathCond)
+	ok := ex.restartInc()
+	ex.pcPos = saved
+	return ok
 }
 
 // runPath executes the harness once along the current decision vector.
@@ -274,6 +288,16 @@ func (ex *Exec) assert(label string, c *Term, pos string) {
 	ex.obligations = append(ex.obligations, ob)
 	if c.IsConst() && c.BoolVal() {
 		ob.Verdict = "trivial"
+		return
+	}
+	if v, ok := ex.known[c.id]; ok && v {
+		ob.Verdict = "trivial"
+		return
+	}
+	if v, ok := ex.rangeDecide(c); ok && v {
+		ob.Verdict = "discharged"
+		ob.Backend = "interval-analysis"
+		ex.addCond(c)
 		return
 	}
 	neg := ex.tc.Not(c)
